@@ -30,13 +30,20 @@ CHECKS = {
           "Deterministic simulation of the real Comms hub and real UDPObjects on a simulated socket module with a virtual clock: seeded "
           "search over operation histories (<=60 steps, 1-2 hubs x 1-4 endpoints, doubles + UDP, sinks/sources, peers) and datagram fates "
           "(loss, duplication, reordering, delay beyond the time-out, inbox overflow, truncation), each sampled history additionally "
-          "re-executed with the no-data fault forced at every receive position. After every hub call the multiset of observed deliveries "
-          "(double sendData calls, datagrams on the wire, sink invocations, source calls) must equal the prediction of a small reference "
-          "model of the rule tables, registration results must match, and a no-data receive must deliver nothing and raise nothing. "
+          "re-executed with the no-data fault forced at every receive position (thorough: every pair of positions of short histories). "
+          "After every hub call the multiset of observed deliveries (double sendData calls, datagrams on the wire with their full address, "
+          "sink invocations - including sinks that re-enter the hub -, source calls) must equal the prediction of a small reference model "
+          "of the rule tables; registration results must match; a no-data receive must deliver nothing, raise nothing and return (a receive "
+          "that would block forever is a violation); every datagram an endpoint reads from its socket must be handed to the hub unchanged "
+          "before the endpoint reports 'no data', and none may be thrown away with a socket the endpoint closes on its own; spin must poll "
+          "every open endpoint that has a rule and a message waiting; after openAll/closeAll/openCom/closeCom every endpoint must be in the "
+          "state the caller asked for and an open UDP endpoint must listen on its receive port. "
           "Evidence, not proof: histories are sampled; only fault *positions* are enumerated per sampled history.", "DESIGN.md section 2"),
-   note="Trusted: the SimSocket stub (validated against real loopback sockets by `./check selftest fidelity`), the reference model (40 lines), "
-        "single-threaded use, non-re-entrant call-backs, unique ASCII payloads. Not covered: serial/ROS/OPC bridges, send-side errors, "
-        "exhaustive depth-5 enumeration (a model-checking clause; this family samples).",
+   note="Trusted: the SimSocket stub (validated against real loopback sockets by `./check selftest fidelity`; socket API it does not model "
+        "is a HARNESS-ERROR, never a violation), the reference model (50 lines), single-threaded use, call-backs that do not mutate the rule "
+        "tables. Not covered: serial/ROS/OPC bridges, send-side errors, time-out 0, exhaustive depth-5 enumeration (a model-checking clause; "
+        "this family samples). Sensitivity: own mutants, 10 independently seeded changes and 25 reviewer-written variants "
+        "(`./check selftest mutants|seeded|variants C19`).",
    technique="deterministic simulation: virtual-clock UDP network + seeded history/fault search + per-step refinement against a reference model"),
  "C16": dict(
    level=("exploration",
@@ -44,7 +51,8 @@ CHECKS = {
           "pathplanner (one integer = one exact execution; scripted draw kinds force ties, duplicates, near-min/near-max and into-obstacle "
           "samples), records every generator/distance/collision call at the call-back seams while the tree grows, and afterwards checks "
           "the recorded growth history against an independent brute-force nearest-neighbour replay (root, acyclic reachability, cost "
-          "bookkeeping, free edges, min/max connection distance at insertion, cheapest free parent among the examined, path, tree size).",
+          "bookkeeping incl. finiteness, free edges, min/max connection distance at insertion, cheapest free parent among the examined, "
+          "path, tree size), across one or two calls on the same planner.",
           "DESIGN.md section 3"),
    note="Trusted: rtree/libspatialindex as a real component (its tie order is accepted, not predicted), the brute-force reference, float "
         "tolerance 1e-9 on cost sums. No clock, network, disk or crash exists in this component and none is claimed.",
@@ -56,7 +64,9 @@ CHECKS = {
           "force success-on-restart-k and all-restarts-fail at every iteration budget. Short operation histories (IK/constrainedIK/IKFree "
           "interleaved with moves, tool changes, limit and tolerance changes) over bundled URDF arms and random chains are checked after "
           "every call: success => FK(theta) within the configured tolerances (independent error computation), in limits, state = solution; "
-          "failure => reported tool pose = FK(stored joints); near-solution start => success.", "DESIGN.md section 4"),
+          "failure => reported tool pose = FK(stored joints) (also after move(stationary)); near-solution start => success; the vector "
+          "handed to the caller is not the arm's own state array. Three genuine numerical findings are recorded as known findings with "
+          "narrow predicates and a committed failing trace each.", "DESIGN.md sections 4, 10, 13"),
    note="Trusted: the arm's own FK (C05's business), NumPy/SciPy for the independent error twist, Numba-compiled kernels as real components. "
         "Only the restart policy/state write-back is schedule-dependent; goals/arms/tolerances are sampled inputs.",
    technique="deterministic simulation: simulator-owned PRNG (scripted restart schedule) + seeded op-history search + per-call oracle"),
